@@ -51,6 +51,24 @@ pub fn plan(prop: &str) -> Option<Plan> {
             ],
             watchdog_s: 60,
         },
+        "C04" => Plan {
+            prop: "C04",
+            level: "fault_enumeration",
+            quick_runs: 150_000,
+            thorough_runs: 5_000_000,
+            chunk: 2_500,
+            builds: &[("checked", 1.0), ("release", 0.5)],
+            rule: "one case = one seeded run of the wire simulation with faults ON: a producer appends 1-4 zoo messages to one long-lived writer (UPER, 70%), or encodes one protobuf message (20%), or a DER item stream through an io::Write shim (10%); a clean tracing pass (TraceBits) locates flags/indices/length determinants; 1-3 corruptions of swarm-selected kinds hit the delivery (bit flip, declared-length truncation, torn bytes, extension, byte/bit insertion and deletion, overwrite, splice, random bytes, cross-type decode; under the DER reader additionally short reads, EINTR, EOF@k, hard error@k); the consumer decodes the plan twice with different slack beyond the declared length. Oracles: O1 no panic, O2 no abort/stack overflow/hang (child exit status + watchdog), O3 allocation budget 32 MiB + 8192 x input bytes (counting global allocator), O4 no Ok with pos > len and no slack-dependent Ok, O5 accessors callable after a failed read; messages wholly before the first affected bit stay under the exact oracle. Non-trivial = at least one fault actually fired; distinct = distinct event-log hash (delivery hash, per-read outcome and position).",
+            real: &["UperReader<Bits>", "Bits", "PackedRead", "UperWriter (producer)", "ProtobufReader", "ProtoRead", "ProtobufWriter (producer)", "BasicReader/BasicRead (DER)", "BasicWriter/BasicWrite (producer)", "generated zoo types"],
+            stub: &["transport (in-memory wire + fault process)", "io::Read/io::Write objects (FaultyRead/FaultyWrite)", "allocator accounting wrapper around System (refuses > 1 GiB single / > 2 GiB live)"],
+            assumptions: &[
+                "target types are the finite zoo incl. hostile-length types; element types of hostile lists are at least 1 bit wide so the allocation budget is sound",
+                "hard I/O errors other than EOF under the DER reader are outside 'for every byte string' and only give diagnostics",
+                "a read after a failed read on the same reader is outside the statement (diagnostic only)",
+                "both build profiles run: 'checked' (release + debug-assertions + overflow-checks = what a cargo test/debug user gets) and plain 'release'",
+            ],
+            watchdog_s: 20,
+        },
         _ => return None,
     })
 }
@@ -757,7 +775,10 @@ fn check(args: &[String], root: &Path, bins: &Bins) -> i32 {
         exit = 1;
     }
     if new_violations.len() > 8 {
-        println!("note: {} further distinct violation signatures not individually reported", new_violations.len() - 8);
+        println!("note: {} further distinct violation signatures not individually minimised:", new_violations.len() - 8);
+        for v in new_violations.iter().skip(8) {
+            println!("  further: {} (build {}, run {}): {}", v.signature, v.build, v.run, first_line(&v.detail));
+        }
     }
     if !m.harness_errors.is_empty() {
         for e in &m.harness_errors {
@@ -863,6 +884,7 @@ fn first_line(s: &str) -> String {
 fn expected_probes(prop: &str) -> &'static [&'static str] {
     match prop {
         "C01" => &["back_to_back_stream>=2", "fragmented_length_seen"],
+        "C04" => &["read_failed_then_accessors_called", "truncated_delivery", "EINTR_retried"],
         _ => &[],
     }
 }
